@@ -1391,7 +1391,9 @@ def gather_scatter(qn, kind):
                 return [x, dd, idx], {}
             if kind == "scatter.value":
                 return [x, dd, idx, g.scalar(dt, "any")], {}
-            src = g.t(ishape if not v.startswith("src-larger") else [s + 1 for s in ishape], dt, "small" if reduce == "prod" else "any")
+            src = g.t(ishape if not v.startswith("src-larger") else [s + 1 for s in ishape], dt, "small" if reduce == "prod" else ("distinct" if reduce == "mean" else "any"))
+            if reduce == "mean":
+                src = src * 4  # spread: the mean of a group of distinct values is then not one of its members
             if kind == "scatter_reduce":
                 return [x, dd, idx, src, reduce], ({"include_self": include_self} if include_self is not True or g.r.random() < 0.5 else {})
             return [x, dd, idx, src], {}
